@@ -311,7 +311,7 @@ func c16connect(op []string) string {
 // c16reconnect: a component session is established, the server closes the stream gracefully (the receive loop
 // stops, the state stays "established"), then Resume() meets a server that answers the handshake with `reply`.
 // Observation: the class of the reply, the error class of Resume, the component's state afterwards.
-func c16reconnect(reply string) string {
+func c16reconnect(reply string, viaConnect bool) string {
 	cls := c16class(reply)
 	ln, err := net.Listen("tcp", "127.0.0.1:0")
 	if err != nil {
@@ -321,6 +321,7 @@ func c16reconnect(reply string) string {
 	header := c16header([]c16attr{{"", "id", "sid"}}, "named")
 	firstClosed := make(chan struct{})
 	sent2 := make(chan struct{})
+	got := "~" // what the server read inside <handshake> on the connection it is serving
 	go func() {
 		// connection 1: a proper handshake, then </stream:stream>
 		conn, err := ln.Accept()
@@ -329,11 +330,11 @@ func c16reconnect(reply string) string {
 			close(sent2)
 			return
 		}
-		got := "~"
 		s1 := make(chan struct{})
 		fin := make(chan struct{})
 		close(fin)
 		c16serve(conn, header, "<handshake/>", 0, false, true, &got, s1, fin)
+		got = "~"
 		close(firstClosed)
 		// connection 2: the reply under test
 		conn2, err := ln.Accept()
@@ -364,7 +365,13 @@ func c16reconnect(reply string) string {
 	}
 	time.Sleep(20 * time.Millisecond) // the receive loop has seen the closing tag
 	before := int(xmpp.VerifComponentState(c))
-	rerr := c.Resume()
+	// the application calls Connect again (or Resume, which Connect forwards to)
+	var rerr error
+	if viaConnect {
+		rerr = c.Connect()
+	} else {
+		rerr = c.Resume()
+	}
 	select {
 	case <-sent2:
 	case <-time.After(5 * time.Second):
@@ -380,7 +387,7 @@ func c16reconnect(reply string) string {
 	if t := xmpp.VerifComponentTransport(c); t != nil {
 		go t.Close()
 	}
-	return fmt.Sprintf("%s %d %s %d", cls, before, e, after)
+	return fmt.Sprintf("%s %d %s %d %s", cls, before, e, after, got)
 }
 
 func (c16) Exec(c Case) []string {
@@ -403,7 +410,7 @@ func (c16) Exec(c Case) []string {
 						obs[i] = fmt.Sprintf("panic:%v", r)
 					}
 				}()
-				obs[i] = c16reconnect(unhx(op[2]))
+				obs[i] = c16reconnect(unhx(op[2]), len(op) > 3 && op[3] == "connect")
 			}(i, op)
 		case "connect":
 			wg.Add(1)
@@ -560,8 +567,12 @@ func (c16) Generate(rng *rand.Rand, tier string, st *Stats) []Case {
 	flush()
 
 	// a second life: established, closed gracefully by the server, then Resume() against every reply
-	for _, r := range replies {
-		pending = append(pending, []string{"reconnect", r.class, hx(r.bytes)})
+	for ri, r := range replies {
+		how := "resume"
+		if ri%2 == 0 {
+			how = "connect"
+		}
+		pending = append(pending, []string{"reconnect", r.class, hx(r.bytes), how})
 		st.Inc("reconnect_after_graceful_close")
 		if len(pending) >= 12 {
 			flush()
